@@ -465,6 +465,8 @@ pub struct Gen<'a> {
     pub force_delegate: bool,
     /// many functionaries per step and thresholds 2..3 (multi-party scenarios)
     pub multi_party: bool,
+    /// two functionaries of a threshold-2 step delegate with one and the same sub-layout
+    pub co_delegate: bool,
 }
 
 impl<'a> Gen<'a> {
@@ -493,7 +495,8 @@ impl<'a> Gen<'a> {
         let mut delegated = false;
         for i in 0..nsteps {
             let name = format!("s{}", i);
-            let threshold = if self.multi_party { *self.r.pick(&[2u32, 2, 3]) } else { *self.r.pick(&[1u32, 1, 1, 2]) };
+            let co = self.co_delegate && depth > 0 && i == 0;
+            let threshold = if co { 2 } else if self.multi_party { *self.r.pick(&[2u32, 2, 3]) } else { *self.r.pick(&[1u32, 1, 1, 2]) };
             let nauth = if self.multi_party { funs.len() } else { (threshold as usize).max(1 + self.r.below(2)).min(funs.len()) };
             let auth: Vec<usize> = funs.iter().cloned().take(nauth).collect();
             let threshold = threshold.min(auth.len() as u32);
@@ -514,16 +517,35 @@ impl<'a> Gen<'a> {
             let prod_rules = vec![ArtifactRule::Create(vp(&format!("out{}", i))), ArtifactRule::Allow(vp("*"))];
             // evidence: every authorized key provides a link (more than the threshold needs, sometimes)
             let nlinks = if self.multi_party || self.r.chance(1, 2) { auth.len() } else { threshold as usize };
+            let mut shared: Option<(SBlock, SDir)> = None;
             for (j, &k) in auth.iter().enumerate().take(nlinks.max(threshold as usize)) {
-                let delegate = depth > 0 && j == 0 && threshold == 1 && (self.force_delegate || self.r.chance(1, 3));
+                let delegate = depth > 0 && ((j == 0 && threshold == 1 && (self.force_delegate || self.r.chance(1, 3))) || (co && j < 2));
                 let link = SLink { name: name.clone(), mats: mats.clone(), prods: prods.clone(), stdout: format!("built {}", i), command: vec!["make".into(), format!("t{}", i)] };
                 let fname = format!("{}.{}.link", name, prefix8(self.pool, k));
                 if delegate {
                     delegated = true;
                     let subname = format!("{}.{}", name, prefix8(self.pool, k));
                     let subpath = if path.is_empty() { subname.clone() } else { format!("{}/{}", path, subname) };
-                    let inner_insp = allow_insp && self.r.chance(1, 3);
-                    let (b, subdir) = self.valid_layout(depth - 1, &subpath, &[k], inner_insp);
+                    let inner_insp = allow_insp && !co && self.r.chance(1, 3);
+                    let (b, subdir) = match shared.take() {
+                        // the same sub-layout and evidence, signed by this functionary
+                        Some((mut b, d)) => {
+                            b.sigs = vec![SSig { label: k, signer: k, corrupt: false }];
+                            (b, d)
+                        }
+                        None => {
+                            let (auth_now, co_now) = (auth.clone(), self.co_delegate);
+                            self.co_delegate = false;
+                            let x = self.valid_layout(depth - 1, &subpath, if co { &auth_now } else { std::slice::from_ref(&k) }, inner_insp);
+                            self.co_delegate = co_now;
+                            let mut b = x.0;
+                            b.sigs = vec![SSig { label: k, signer: k, corrupt: false }];
+                            if co {
+                                shared = Some((b.clone(), x.1.clone()));
+                            }
+                            (b, x.1)
+                        }
+                    };
                     dir.files.push((fname, SFile::Block(b)));
                     dir.subs.push((subname, subdir));
                 } else {
